@@ -259,6 +259,63 @@ theorem clamp_spec (lt : α → α → Bool) (h : StrictWeakOrder lt) (v lo hi :
       rw [if_neg h2]
       exact ⟨h1', h2', fun _ _ => rfl⟩
 
+/-- `celeritas::min(a, b)` as written (`b < a ? b : a`): one of its arguments, not above either
+    of them, and the FIRST argument when the two are equivalent (the `std::min` convention) -/
+theorem minOf_spec (lt : α → α → Bool) (h : StrictWeakOrder lt) (a b : α) :
+    (minOf lt a b = a ∨ minOf lt a b = b) ∧ lt a (minOf lt a b) = false ∧
+    lt b (minOf lt a b) = false ∧ (lt b a = false → minOf lt a b = a) := by
+  unfold minOf
+  by_cases h1 : lt b a = true
+  · rw [if_pos h1]
+    exact ⟨Or.inr rfl, h.asymm h1, h.irrefl _, fun h' => by rw [h1] at h'; cases h'⟩
+  · have h1' : lt b a = false := by simpa using h1
+    rw [if_neg h1]
+    exact ⟨Or.inl rfl, h.irrefl _, h1', fun _ => rfl⟩
+
+/-- `celeritas::max(a, b)` as written (`a < b ? b : a`): one of its arguments, not below either
+    of them, and the FIRST argument when the two are equivalent (the `std::max` convention) -/
+theorem maxOf_spec (lt : α → α → Bool) (h : StrictWeakOrder lt) (a b : α) :
+    (maxOf lt a b = a ∨ maxOf lt a b = b) ∧ lt (maxOf lt a b) a = false ∧
+    lt (maxOf lt a b) b = false ∧ (lt a b = false → maxOf lt a b = a) := by
+  unfold maxOf
+  by_cases h1 : lt a b = true
+  · rw [if_pos h1]
+    exact ⟨Or.inr rfl, h.asymm h1, h.irrefl _, fun h' => by rw [h1] at h'; cases h'⟩
+  · have h1' : lt a b = false := by simpa using h1
+    rw [if_neg h1]
+    exact ⟨Or.inl rfl, h.irrefl _, h1', fun _ => rfl⟩
+
+/-- on the integers with `<` these are `min` and `max` -/
+theorem minOf_maxOf_int (a b : Int) :
+    minOf (fun x y => decide (x < y)) a b = min a b ∧
+    maxOf (fun x y => decide (x < y)) a b = max a b := by
+  unfold minOf maxOf
+  constructor <;> (split <;> simp_all <;> omega)
+
+/-- `signum(x)` is the sign of `x`: −1, 0 or 1 -/
+theorem signum_spec (x : Int) :
+    (0 < x → signum x = 1) ∧ (x = 0 → signum x = 0) ∧ (x < 0 → signum x = -1) ∧
+    signum x * x.natAbs = x := by
+  unfold signum
+  refine ⟨fun h => ?_, fun h => ?_, fun h => ?_, ?_⟩
+  · have : ¬ x < 0 := by omega
+    simp [h, this]
+  · subst h; simp
+  · have : ¬ 0 < x := by omega
+    simp [h, this]
+  · rcases Int.lt_trichotomy x 0 with h | h | h
+    · have h' : ¬ 0 < x := by omega
+      simp only [h, h', if_true, if_false]; omega
+    · subst h; simp
+    · have h' : ¬ x < 0 := by omega
+      simp only [h, h', if_true, if_false]; omega
+
+/-- `clamp_to_nonneg(v)` is `max(v, 0)`: never negative, the identity on non-negative values -/
+theorem clampToNonneg_spec (v : Int) :
+    clampToNonneg v = max v 0 ∧ 0 ≤ clampToNonneg v ∧ (0 ≤ v → clampToNonneg v = v) := by
+  unfold clampToNonneg
+  split <;> omega
+
 /-- ★ `ceil_div(t, b)` is the least `q` with `t ≤ q·b`, i.e. `⌈t / b⌉`, for `b > 0`. -/
 theorem ceilDiv_spec (t b : Nat) (hb : 0 < b) :
     t ≤ ceilDiv t b * b ∧ (∀ q, t ≤ q * b → ceilDiv t b ≤ q) ∧ ceilDiv t b = (t + b - 1) / b := by
